@@ -384,7 +384,7 @@ impl Property for C45 {
         "server state is the one CsptpManager::new establishes (no upstream CSPTP source)",
     ];
     const QUICK_CASES: u32 = 1_000_000;
-    const THOROUGH_CASES: u32 = 12_000_000;
+    const THOROUGH_CASES: u32 = 39_000_000;
 
     fn strategy(_tier: Tier) -> BoxedStrategy<Case> {
         let config = (any::<[u8; 8]>(), any::<u8>(), any::<u8>(), any::<u8>(), canonical_accuracy(), any::<u16>(), any::<bool>(), any::<bool>(), any::<bool>()).prop_map(
@@ -407,5 +407,37 @@ impl Property for C45 {
 
     fn check(case: &Case) -> Outcome {
         check_case(case)
+    }
+
+    /// fuzzer input: 16 configuration/selector bytes, then either a raw datagram or (pos, value) overwrites of a
+    /// well-formed request
+    fn from_bytes(data: &[u8]) -> Option<Case> {
+        if data.len() < 16 {
+            return None;
+        }
+        let (sel, rest) = data.split_at(16);
+        let config = ConfigSpec {
+            identity: sel[0..8].try_into().unwrap(),
+            prio1: sel[8],
+            prio2: sel[9],
+            class: sel[10],
+            accuracy: 0x21,
+            variance: u16::from_be_bytes([sel[11], sel[12]]),
+            ptp_timescale: sel[13] & 1 != 0,
+            time_traceable: sel[13] & 2 != 0,
+            frequency_traceable: sel[13] & 4 != 0,
+        };
+        let template = MsgSpec {
+            header: HeaderSpec { sdo: 0x300, major: 2, minor: 1, domain: sel[14], flags: 0, correction: 0, clock_id: [7; 8], port: 1, seq: u16::from_be_bytes([sel[14], sel[15]]), log_interval: 0 },
+            body: BodySpec::Sync(TsSpec { secs: 0, nanos: 0 }),
+            tlvs: vec![TlvSpec { ty: TLV_CSPTP_REQUEST, value: vec![sel[15] & 3, 0, 0, 0] }],
+        };
+        let dgram = if sel[13] & 8 != 0 {
+            Dgram::Raw(rest[..rest.len().min(600)].to_vec())
+        } else {
+            Dgram::Mutated { msg: template, writes: rest.chunks_exact(3).take(16).map(|c| (u16::from_be_bytes([c[0], c[1]]), c[2])).collect(), cut: (sel[13] >> 4) & 7, pad: sel[13] >> 7 }
+        };
+        let ts = TsSpec { secs: u64::from_be_bytes([0, 0, sel[0], sel[1], sel[2], sel[3], sel[4], sel[5]]), nanos: 999_999_999 };
+        Some(Case { config, items: vec![Item { dgram, rx: ts, remote: 0, local: 0, event_ok: true, tx: ts, general_ok: true }] })
     }
 }
